@@ -1,6 +1,6 @@
 (* C12 -- property theorems only: statement + exact + Print Assumptions. *)
 From Coq Require Import List ZArith String Bool.
-From LJT Require Import gen.GenErrPaths model.ApiState model.ApiOps model.ErrPaths
+From LJT Require Import gen.GenErrPaths model.ApiState model.ApiOps model.ErrPaths model.MemAcct proofs.MemAcctProofs
   proofs.ApiStateProofs proofs.ApiHistoryProofs proofs.ApiKindsProofs proofs.ApiDestProofs.
 Import ListNotations.
 Local Open Scope Z_scope.
@@ -227,3 +227,22 @@ Theorem C12_destination_refuted_without_fix :
   d_doublefree (run_calls true f2_calls dest0) = false.
 Proof. exact dest_refuted_without_fix. Qed.
 Print Assumptions C12_destination_refuted_without_fix.
+
+(* memory accounting (TJPARAM_MAXMEMORY): with the subtractions the translator finds in free_pool,
+   total_space_allocated is back at its permanent part after every abort / finish, for ALL
+   allocation histories; the model's abort (abortc) clears the image-pool share accordingly *)
+Theorem C12_memory_accounting_restored :
+  forall base (l : list mop),
+  let m := mrun free_pool_subtracts_small free_pool_subtracts_large (l ++ [Abort]) (mm0 base) in
+  total m = base + perm m /\ img_small m = [] /\ img_large m = [].
+Proof. exact accounting_restored. Qed.
+Print Assumptions C12_memory_accounting_restored.
+Theorem C12_memory_accounting_drift_refuted_without_subtraction :
+  total (mrun true false drift_ops (mm0 0)) = 1200 /\ total (mrun true true drift_ops (mm0 0)) = 0.
+Proof. exact accounting_drifts_without_large_subtraction. Qed.
+Print Assumptions C12_memory_accounting_drift_refuted_without_subtraction.
+Theorem C12_abort_clears_image_space :
+  forall en o x, let x' := fst (exec en (abortc o) x) in
+  sc (xs x') (ApiOps.img_small o) = 0 /\ sc (xs x') (ApiOps.img_large o) = 0.
+Proof. exact abortc_clears. Qed.
+Print Assumptions C12_abort_clears_image_space.
